@@ -29,6 +29,8 @@ def fn_to_py(fn):
         return dict(func1d=scale_shift, **KWOPTS[fn[1]])
     if fn[0] == 'd':
         return {'func1d': rops.FUNCS[fn[1]]}
+    if fn[1] == 'scalar_mean':
+        return lambda x: x.mean()
     return fn[1] if fn[0] == 'r' else rops.FUNCS[fn[1]]
 
 
